@@ -168,6 +168,66 @@ def run(chk, facts):
                    f"{r['fn']} `{r['msg']}`: {pt} >= {ct}" if ok7 else
                    f"{r['fn']} `{r['msg']}`: the operand is the parent ({pt} >= {ct}): whatever a value of that type can be *assigned to* is accepted - a Float where an Int is required")
     chk.floor("R-C05-7", n7, 3, "operand-must-have-type constraints")
+    # ---------------- R-C05-8 ----------------
+    # the checker threads pairs of same-typed values (the environment's variable mapping and the builder's, expected and given, parent and
+    # child) through its functions; a call that hands two parameters on *crosswise* to a callee whose parameters have those very names
+    # (`a.map_exp(global_var_mapping, var_mapping)` inside `map_exp(.., var_mapping, global_var_mapping)`) reverses a precedence or a
+    # direction without a type error.  Expected count: zero - a two-function positive example is checked on every run
+    chk.rule("R-C05-8", "no call in check:: hands two parameters of its function crosswise to a callee whose parameters carry the same names")
+    from .common import crossed_arguments
+    ident = lambda nm: {"k": "pident", "name": nm}
+    path = lambda nm: {"k": "path", "p": nm}
+    fake = [{"name": "g", "qual": "t::g", "mod": "t", "sig": {"inputs": [{"pat": ident("a")}, {"pat": ident("b")}]}, "body": {"k": "block", "stmts": []}},
+            {"name": "f", "qual": "t::f", "mod": "t", "sig": {"inputs": [{"pat": ident("a")}, {"pat": ident("b")}]},
+             "body": {"k": "block", "stmts": [{"k": "expr", "e": {"k": "call", "f": path("g"), "args": [path("b"), path("a")]}, "semi": False}]}}]
+    alive = crossed_arguments(fake) == [("t::f", "g", "a", "b")] or crossed_arguments(fake) == [("t::f", "g", "a", "b"), ("t::f", "g", "b", "a")]
+    chk.ob("R-C05-8", "positive-example", alive, "the rule reports the built-in example f(a, b) -> g(b, a)" if alive else "the crossed-argument rule no longer reports its own positive example")
+    crossed = crossed_arguments(syn.fns, scope=lambda f_: f_["mod"].startswith("check") and "test" not in f_["mod"])
+    n_scanned = sum(1 for f_ in syn.fns if f_["mod"].startswith("check") and f_.get("body"))
+    chk.ob("R-C05-8", "scan", not crossed, f"{n_scanned} functions of check:: scanned, no crossed hand-over" if not crossed else
+           f"{crossed[0][0]} calls {crossed[0][1]}(..) with its own parameters `{crossed[0][2]}` and `{crossed[0][3]}` exchanged: the callee's parameters of those names receive each other's "
+           "value - a precedence (which mapping wins) or a direction (what must accept what) is silently reversed")
+    chk.floor("R-C05-8", n_scanned, 300, "functions of check::")
+    # ---------------- R-C05-9 ----------------
+    # the constraint sets are kept by a small state machine (ConstrBuilder: `joined`, `branch_point`).  Which method reads and which writes the
+    # two fields is its protocol: branch_point() opens (joined = false, level + 1), reset_branches() joins (joined = true, level = last set),
+    # branch() and add_constr_map() only read.  A method that starts to write (`self.joined = false` inside branch()) or stops to read one of
+    # them changes which constraints a set inherits - a use is separated from the constraints that type its operand.  (The protocol itself
+    # is not sound, D62; this rule keeps it from getting worse unnoticed.)
+    chk.rule("R-C05-9", "who reads and who writes the branch state of the constraint builder")
+    WANT = {"branch_point": ({"branch_point:+=", "joined:false"}, set()), "branch": (set(), {"branch_point", "joined"}),
+            "reset_branches": ({"branch_point:=", "joined:true"}, set()), "add_constr_map": (set(), {"branch_point", "joined"})}
+    seen9 = {}
+    for fn in syn.fns:
+        if (fn.get("impl_of") or "").strip() != "ConstrBuilder" or not fn.get("body") or "test" in fn["mod"] or fn.get("impl_trait"):
+            continue
+        w, r, tgt = set(), set(), set()
+        for n in walk(fn["body"]):
+            if n.get("k") == "assign" or (n.get("k") == "binary" and n["op"] in ("+=", "-=")):
+                l = strip(n["l"])
+                tgt.add(id(l))
+                if l.get("k") == "field" and src(strip(l["base"])) == "self" and l["name"] in ("joined", "branch_point"):
+                    if n.get("k") == "assign":
+                        v = src(strip(n["r"]), -30).replace(" ", "")
+                        w.add(l["name"] + ":" + (v if v in ("true", "false") else "="))
+                    else:
+                        w.add(l["name"] + ":" + n["op"])
+        for n in walk(fn["body"]):
+            if n.get("k") == "field" and src(strip(n["base"])) == "self" and n["name"] in ("joined", "branch_point") and id(n) not in tgt:
+                # mentions inside trace!/format arguments do not decide anything
+                r.add(n["name"])
+        if w or r or fn["name"] in WANT:
+            seen9[fn["name"]] = (w, r)
+    for name in sorted(set(seen9) | set(WANT)):
+        w, r = seen9.get(name, (set(), set()))
+        ww, wr = WANT.get(name, (set(), set()))
+        if name == "new":
+            continue
+        ok9 = w == ww and (r >= wr if name in WANT else not r - {"branch_point"})
+        chk.ob("R-C05-9", f"builder-state:{name}", ok9, f"ConstrBuilder::{name} writes {sorted(w) or 'nothing'}, reads {sorted(r) or 'nothing'}" if ok9 else
+               f"ConstrBuilder::{name} writes {sorted(w) or 'nothing'} and reads {sorted(r) or 'nothing'}; reviewed: writes {sorted(ww) or 'nothing'}, reads {sorted(wr) or 'nothing'} - the protocol "
+               "that decides which constraints a branch inherits and which sets a constraint is added to has changed")
+    chk.floor("R-C05-9", len(seen9), 4, "ConstrBuilder methods that touch the branch state")
     chk.notes.append("C05: sibling agreement of the arity matchers; census of all constraint sites with operand roles; hand-down of return_type/is_expr.")
 
 
